@@ -34,14 +34,20 @@ RULE = ('Archives: every ordered tar archive of 1..2 members (3 in thorough; qui
         'starts with the name of the target>} x member types {file, dir, symlink->{a, .., '
         '../x, <abs dir>}, hardlink->{a, ../outside-file}} (names may repeat, so "link, then write through the link" '
         'and "hard link, then overwrite" patterns are included); each staged by Job.stageIn (1..2 members) and by '
-        'StageReference directly. 1-member archives are additionally staged gzip-compressed, from a producer '
+        "StageReference directly. Link chains: every archive of 2..3 (thorough 4) members with distinct names from {a, d, d/a, "
+        "a/x} x {file, dir, symlink->{., .., a/.., d/.., d/a/..}} (each link lexically inside, composing on disk) through "
+        "StageReference, plus (quick) the 4-member ones that the trusting-writer model says compose to an escape; those "
+        "composing ones also through Job.stageIn. "
+        '1-member archives are additionally staged gzip-compressed, from a producer '
         "component's directory and via an absolute-path reference. Reference lists: every list of 1..2 references "
         'from 11 sources (files, directories, links to them, directories containing links, trailing "/", "/." and '
         '"/..") x {copy, link, copyout} (pairs: copy/link in quick). Combos: a link/copy reference of a directory '
         'staged before (1-member archives: also after) an :extract of every 1-member archive (2-member in thorough). Manifests: every '
-        'ordered manifest of 1..2 distinct keys (3 in thorough) from {a, a/b, ../x, a/../../x, ./a, <abs>, conf} x {copy, '
+        'ordered manifest of 1..2 distinct keys (3 in thorough) from {a, a/b, ../x, a/../../x, ./a, <abs>, conf, data} x {copy, '
         'link} (1-key: also the default method; also given as a YAML file), deployed by expandPackageToDirectory and by '
-        'experimentFromPackage. A case is non-trivial when the staging/deployment operation was actually executed on '
+        'experimentFromPackage (with data=[big.csv] when a copied folder is deployed as `data`); every source folder '
+        'holds a file, a sub-folder, links, and links named like the files deployment writes later (flowir_package.yaml, '
+        'dsl.yaml, flowir_instance.yaml, manifest.yaml, big.csv) that point at victim files outside the instance. A case is non-trivial when the staging/deployment operation was actually executed on '
         'it (package and instance could be set up); distinct = distinct (part, archive/refs/manifest, variant).')
 ASSUMPTIONS = [
     'the target of staging is the component working directory (…/stages/stageN/<component>); the target of '
@@ -55,6 +61,8 @@ ASSUMPTIONS = [
     'the kind of error is only judged at the public entry points (Job.stageIn, experimentFromPackage) and only for '
     'inputs that lexically designate something outside the target: those must end in an exception of the '
     'experiment.model.errors family; any exception is accepted from the lower-level entry points',
+    'experimentFromPackage(data=[...]) is only exercised when `data` is deployed as a copy: replacing a file of a '
+    'LINKED data folder changes the link\'s source at the caller\'s own request (grey zone, excluded)',
     'all "outside" victims live inside the per-case scratch sandbox; absolute member names / keys point into it',
     'tar archives are GNU format, plain (and gzip for single members); device/fifo members are not generated',
 ]
@@ -453,6 +461,14 @@ def run_manifest_case(col, case):
         abs_dir = os.path.join(S, 'victim')
         _write(os.path.join(abs_dir, 'keep'), 'victim-keep\n')
         _write(os.path.join(abs_dir, 'sub', 'keep'), 'victim-sub-keep\n')
+        flow_text = yaml.safe_dump({'components': [{'name': 'c', 'stage': 0, 'command': {'executable': 'ls'}}]})
+        for name in G.LATER_WRITTEN:
+            # victims with harmless content (a copy of them may legitimately end up in <instance>/conf or /data)
+            _write(os.path.join(abs_dir, 'later', name),
+                   'victim,%s\n' % name if name.endswith('.csv') else
+                   ('# victim\n{}\n' if name == 'manifest.yaml' else '# victim\n' + flow_text))
+        new_data = os.path.join(S, 'extra', 'big.csv')
+        _write(new_data, 'replacement,data\n')
         pkg_dir = os.path.join(S, 'pkg')
         sources = []
         for i in range(len(case['manifest'])):
@@ -464,9 +480,12 @@ def run_manifest_case(col, case):
             #  would only make every copy fail with ELOOP)
             os.symlink('f', os.path.join(sd, 'lf'))
             os.symlink(os.path.join(abs_dir, 'sub'), os.path.join(sd, 'labs'))
+            # links named like the files that deployment writes into conf/ and data/ after applying the manifest
+            for name in G.LATER_WRITTEN:
+                os.symlink(os.path.join(abs_dir, 'later', name), os.path.join(sd, name))
             sources.append(sd)
         flow = os.path.join(pkg_dir, 'flow.yaml')
-        _write(flow, yaml.safe_dump({'components': [{'name': 'c', 'stage': 0, 'command': {'executable': 'ls'}}]}))
+        _write(flow, flow_text)
         work = os.path.join(S, 'work')
         os.makedirs(work)
         _write(os.path.join(work, 'outside-file'), 'outside-file-original-content\n')
@@ -481,6 +500,9 @@ def run_manifest_case(col, case):
             _write(manifest_arg, yaml.safe_dump(man, sort_keys=False))
         entries = [(G.subst(k, abs_dir), m or 'copy', si) for k, m, si in case['manifest']]
         features = SB.manifest_features(entries)
+        # a data file is replaced (data=[...]) when the manifest deploys a COPY of a folder as `data`; with a linked
+        # data folder the replacement lands in the link's source by the user's own request (not judged: not passed)
+        data_arg = [new_data] if any(posixpath.normpath(k) == 'data' and m == 'copy' for k, m, _ in entries) else None
         col.nontriv(case)
         with _Shadow(S):
             before = SB.snapshot(TOP)
@@ -491,7 +513,7 @@ def run_manifest_case(col, case):
                 if part == 'M':
                     pkg.expandPackageToDirectory(inst, pkg.configuration.file_format)
                 else:
-                    exp = experiment.model.data.Experiment.experimentFromPackage(pkg, location=work)
+                    exp = experiment.model.data.Experiment.experimentFromPackage(pkg, location=work, data=data_arg)
                     inst = exp.instanceDirectory.location
             except Exception as e:
                 exc = e
@@ -526,6 +548,11 @@ def job_cases(thorough):
         yield _archive_case('J', members, compress='gz')
         yield _archive_case('J', members, via='producer')
         yield _archive_case('J', members, via='abs')
+    # link chains (distinct names, every member lexically inside): those that compose to an escape (feature K)
+    for n in (2, 3, 4) if thorough else (2, 3):
+        for members in G.chain_archives(n):
+            if SB.archive_features(members) == 'K':
+                yield _archive_case('J', members)
     for refs in G.ref_lists(1, G.REF_METHODS):
         yield {'part': 'R', 'refs': refs, 'archive': None}
     for refs in G.ref_lists(2, G.REF_METHODS if thorough else ['copy', 'link']):
@@ -536,6 +563,16 @@ def job_cases(thorough):
                 yield {'part': 'C', 'refs': pre + ['@ARCHIVE@'], 'archive': members}
                 if n == 1:
                     yield {'part': 'C', 'refs': ['@ARCHIVE@'] + pre, 'archive': members}
+
+
+_JOB_CASES = {}
+
+
+def job_case_list(thorough):
+    """Memoised list(job_cases()); run() fills it before forking so that the workers inherit it."""
+    if thorough not in _JOB_CASES:
+        _JOB_CASES[thorough] = list(job_cases(thorough))
+    return _JOB_CASES[thorough]
 
 
 def manifest_cases(thorough):
@@ -553,7 +590,7 @@ def worker_job(col, item, tier, seed):
     global _RUN_DIR
     lo, hi, known, _RUN_DIR = item
     col.__dict__['_c18_seen'] = set(known)
-    cases = list(job_cases(tier == 'thorough'))[lo:hi]
+    cases = job_case_list(tier == 'thorough')[lo:hi]
     for c in cases:
         run_job_case(col, c)
     if cases and lo % 7 == 0:
@@ -579,7 +616,15 @@ def worker_stageref(col, item, tier, seed):
     try:
         for i in range(lo, hi):
             idx = i * step + offset
-            run_stageref_case(col, {'part': 'S', 'archive': G.archive_by_index(n, idx)}, graph, base)
+            if isinstance(n, str):
+                # 'chain<k>' = every archive of k distinct-name members of the link-chain alphabet;
+                # 'chain<k>K' = only those whose links compose to an escape (feature K of the model)
+                members = G.chain_archive_by_index(int(n[5]), idx)
+                if n.endswith('K') and SB.archive_features(members) != 'K':
+                    continue
+            else:
+                members = G.archive_by_index(n, idx)
+            run_stageref_case(col, {'part': 'S', 'archive': members}, graph, base)
     finally:
         _Graph.drop()
 
@@ -628,7 +673,7 @@ def run(ctx):
 
 def _run(ctx, run_dir):
     thorough = ctx.thorough
-    n_job = sum(1 for _ in job_cases(thorough))
+    n_job = len(job_case_list(thorough))
     ctx.count('job_stagein_cases', n_job)
     _pmap_batched(ctx, 'worker_job', _chunks(n_job, 40), run_dir)
     n_man = sum(1 for _ in manifest_cases(thorough))
@@ -650,7 +695,17 @@ def _run(ctx, run_dir):
         n_s += per
         items += [(3, lo, hi, QUICK_SLICES, ctx.seed % QUICK_SLICES) for lo, hi in _chunks(per, 512)]
         ctx.count('three_member_slice_size', per)
-    ctx.count('stagereference_cases', n_s)
+    for n in (2, 3):
+        tot = G.n_chain_archives(n)
+        n_s += tot
+        items += [('chain%d' % n, lo, hi, 1, 0) for lo, hi in _chunks(tot, 512)]
+    tot4 = G.n_chain_archives(4)
+    if thorough:
+        n_s += tot4
+        items += [('chain4', lo, hi, 1, 0) for lo, hi in _chunks(tot4, 2048)]
+    else:
+        items += [('chain4K', lo, hi, 1, 0) for lo, hi in _chunks(tot4, 4096)]
+    ctx.count('stagereference_cases_enumerated', n_s)
     _pmap_batched(ctx, 'worker_stageref', items, run_dir)
     ctx.sample({'part': 'S', 'archive': G.archive_by_index(2, 1234)})
     for f in ctx.failures:
